@@ -22,3 +22,4 @@ def run(project, rep):
     rep.run(E.e_r5_ownership_and_context, project, rep, thorough=(rep.tier == "thorough"))
     rep.run(E.e_r7_reiterable_class_tables, project, rep)
     rep.run(E.e_r8_memo_keys, project, rep, thorough=(rep.tier == "thorough"))
+    rep.run(E.e_r9_no_process_wide_settings, project, rep, thorough=(rep.tier == "thorough"))
